@@ -1,9 +1,245 @@
 import KG.Base.Json
-/-! Driver entry points for property C16 (filled in by the C16 model). -/
+import KG.Spec.Validate
+/-! Driver entry points for property C16 (admission validation and its consumers).
+
+`C16.run {env, known, cluster, prev?}`: the model of the plugin's `Validate` on `cluster` (for both answers of
+`PopAny`), the declarative spec (`valid`, `usable`, the classes), and the outcome (`ok` / `err` / `panic`) of every
+consumer model on the object: `CreateClusterInfo` (local and remote mode), `Sync` as an update of `prev`, the
+controller's `syncUpstreamCluster`, the limiter server's handler + one status update, two reconcile periods of the
+gateway against that limiter server; plus the limiter sizes that result.
+
+The external parsers arrive as finite tables (`env`): every byte string the object contains, with the answer the
+REAL parser gave for it. Byte strings travel as hex. -/
 namespace KG.Driver.C16
-open Lean
+open Lean KG KG.Model.Validate KG.Spec.Validate
+
+structure Tables where
+  urls : List (Str × Option URL × Bool)
+  pairs : List (Str × Str × Bool)
+  pems : List (Str × Bool)
+  gates : List (Str × Option Bool)
+  popFirst : Bool
+
+def asciiLower (s : Str) : Str := s.map (fun b => if 65 ≤ b ∧ b ≤ 90 then b + 32 else b)
+
+def mkEnv (t : Tables) (popFirst : Bool) : Env :=
+  { urlParse := fun s => match t.urls.find? (fun e => e.1 = s) with
+      | some e => e.2.1
+      | none => none,
+    x509KeyPair := fun c k => match t.pairs.find? (fun e => e.1 = c ∧ e.2.1 = k) with
+      | some e => e.2.2
+      | none => false,
+    parseCertsPEM := fun d => match t.pems.find? (fun e => e.1 = d) with
+      | some e => e.2
+      | none => false,
+    featureGateSet := fun v => match t.gates.find? (fun e => e.1 = v) with
+      | some e => e.2
+      | none => none,
+    restHostOK := fun s => match t.urls.find? (fun e => e.1 = s) with
+      | some e => e.2.2
+      | none => false,
+    lower := asciiLower,
+    popFirst := popFirst }
+
+def optInt (j : Json) (k : String) : Except String (Option Int) :=
+  match J.optObj j k with
+  | none => pure none
+  | some v => do pure (some (← v.getInt?))
+
+def optTB (j : Json) (k : String) : Except String (Option TokenBucket) :=
+  match J.optObj j k with
+  | none => pure none
+  | some v => do pure (some ⟨← J.getInt v "qps", ← J.getInt v "burst"⟩)
+
+def optBool (j : Json) (k : String) : Except String (Option Bool) :=
+  match J.optObj j k with
+  | none => pure none
+  | some v => do pure (some (← v.getBool?))
+
+def decodeErrType (s : String) : Except String ErrType :=
+  match s with
+  | "required" => pure .required
+  | "invalid" => pure .invalid
+  | "duplicate" => pure .duplicate
+  | "forbidden" => pure .forbidden
+  | "other" => pure .other
+  | _ => throw s!"unknown error type {s}"
+
+def encodeErrType : ErrType → String
+  | .required => "required"
+  | .invalid => "invalid"
+  | .duplicate => "duplicate"
+  | .forbidden => "forbidden"
+  | .other => "other"
+
+def decodeFieldErr (j : Json) : Except String FieldErr := do
+  let a ← j.getArr?
+  match a.toList with
+  | [t, p] => pure ⟨← decodeErrType (← t.getStr?), ← p.getStr?⟩
+  | _ => throw "field error: expected [type, path]"
+
+def encodeErrs (l : Errs) : Json :=
+  Json.arr (l.map fun e => Json.arr #[Json.str (encodeErrType e.typ), Json.str e.path]).toArray
+
+def decodeSchema (j : Json) : Except String Schema := do
+  pure { name := ← J.getHex j "name", strategy := ← J.getHex j "strategy", exempt := ← J.getBool j "exempt",
+         maxRequestsInflight := ← optInt j "max", tokenBucket := ← optTB j "tb",
+         globalMaxRequestsInflight := ← optInt j "gmax", globalTokenBucket := ← optTB j "gtb" }
+
+def decodeServer (j : Json) : Except String Server := do
+  pure { endpoint := ← J.getHex j "endpoint", disabled := ← optBool j "disabled" }
+
+def decodeClientConfig (j : Json) : Except String ClientConfig := do
+  pure { insecure := ← J.getBool j "insecure", bearerToken := ← J.getHex j "bearerToken", keyData := ← J.getHex j "keyData",
+         certData := ← J.getHex j "certData", caData := ← J.getHex j "caData", qps := ← J.getInt j "qps",
+         burst := ← J.getInt j "burst", qpsDivisor := ← J.getInt j "qpsDivisor" }
+
+def decodeSecureServing (j : Json) : Except String SecureServing := do
+  pure { keyData := ← J.getHex j "keyData", certData := ← J.getHex j "certData",
+         clientCAData := ← J.getHex j "clientCAData", serverNames := ← J.getHexList j "serverNames" }
+
+def decodePolicy (j : Json) : Except String Policy := do
+  pure { strategy := ← J.getHex j "strategy", upstreamSubset := ← J.getHexList j "upstreamSubset",
+         nRules := ← J.getNat j "nRules", flowControlSchemaName := ← J.getHex j "flowControlSchemaName",
+         logMode := ← J.getHex j "logMode" }
+
+def decodeKV (j : Json) : Except String (Str × Str) := do
+  let a ← j.getArr?
+  match a.toList with
+  | [k, v] => pure (← J.asHex k, ← J.asHex v)
+  | _ => throw "annotation: expected [key, value]"
+
+def decodeCluster (j : Json) : Except String Cluster := do
+  let ann ← match J.optObj j "annotations" with
+    | none => pure none
+    | some v => do pure (some (← (← v.getArr?).toList.mapM decodeKV))
+  pure { name := ← J.getHex j "name",
+         metaErrs := ← (← J.getArr j "metaErrs").toList.mapM decodeFieldErr,
+         annotations := ann,
+         servers := ← (← J.getArr j "servers").toList.mapM decodeServer,
+         clientConfig := ← decodeClientConfig (← J.getObj j "clientConfig"),
+         secureServing := ← decodeSecureServing (← J.getObj j "secureServing"),
+         schemas := ← (← J.getArr j "schemas").toList.mapM decodeSchema,
+         loggingMode := ← J.getHex j "loggingMode",
+         policies := ← (← J.getArr j "policies").toList.mapM decodePolicy }
+
+def decodeKnown (j : Json) : Except String Known := do
+  pure { name := ← J.getHex j "name", serverNames := ← J.getHexList j "serverNames" }
+
+def decodeTables (j : Json) : Except String Tables := do
+  let urls ← (← J.getArr j "urls").toList.mapM fun e => do
+    let ok ← J.getBool e "ok"
+    let sc ← J.getHex e "scheme"
+    let ho ← J.getHex e "host"
+    let u : Option URL := if ok then some ⟨sc, ho⟩ else none
+    pure (← J.getHex e "s", u, ← J.getBool e "restOK")
+  let pairs ← (← J.getArr j "pairs").toList.mapM fun e => do
+    pure (← J.getHex e "cert", ← J.getHex e "key", ← J.getBool e "ok")
+  let pems ← (← J.getArr j "pems").toList.mapM fun e => do
+    pure (← J.getHex e "data", ← J.getBool e "ok")
+  let gates ← (← J.getArr j "gates").toList.mapM fun e => do
+    let ok ← J.getBool e "ok"
+    let g ← J.getBool e "global"
+    let r : Option Bool := if ok then some g else none
+    pure (← J.getHex e "v", r)
+  pure { urls, pairs, pems, gates, popFirst := ← J.getBool j "popFirst" }
+
+def kindOf {α : Type} : M α → String
+  | .ok _ => "ok"
+  | .error (.err _) => "err"
+  | .error (.panic _) => "panic"
+
+def whatOf {α : Type} : M α → String
+  | .ok _ => ""
+  | .error (.err w) => w
+  | .error (.panic w) => w
+
+def outcome {α : Type} (r : M α) : Json := J.obj [("k", Json.str (kindOf r)), ("what", Json.str (whatOf r))]
+
+def encodeValidate (r : M Errs) : Json :=
+  match r with
+  | .ok l => J.obj [("k", Json.str "ok"), ("errs", encodeErrs l)]
+  | e => J.obj [("k", Json.str (kindOf e)), ("what", Json.str (whatOf e)), ("errs", Json.arr #[])]
+
+def encodeFCType : FCType → String
+  | .unknown => "Unknown"
+  | .exempt => "Exempt"
+  | .maxRequestsInflight => "MaxRequestsInflight"
+  | .tokenBucket => "TokenBucket"
+
+def encodeSizes (l : List (Str × FlowControlCache)) : Json :=
+  Json.arr (l.map fun kv => match kv.2.fc with
+    | some fc => Json.arr #[J.hex kv.1, Json.str (encodeFCType fc.typ), J.nat fc.n, J.nat fc.burst]
+    | none => Json.arr #[J.hex kv.1, Json.str "nil", J.nat 0, J.nat 0]).toArray
+
+def encodeGlobalSizes (l : List (Str × GlobalFC)) : Json :=
+  Json.arr (l.map fun kv => Json.arr #[J.hex kv.1, Json.str (encodeFCType kv.2.typ), J.int kv.2.n, J.int kv.2.burst]).toArray
+
+def sizesOf (r : M ClusterInfo) : Json :=
+  match r with
+  | .ok ci => encodeSizes ci.flowcontrol.flowControls
+  | _ => Json.arr #[]
+
+def quota : Str → Int × Int := fun _ => (1, 1)
+def used : Str → Int := fun _ => 0
+
+/-- two reconcile periods of a gateway in remote mode against a limiter server that handled the object -/
+def reconcileTwice (c : Cluster) (ci : ClusterInfo) : M Unit := do
+  let u ← upstreamConditionHandler emptyUpstream c
+  let (fcs1, u1) ← reconcileOnce quota used true [1] ci.flowcontrol.flowControls u
+  let _ ← reconcileOnce quota used true [1] fcs1 u1
+  pure ()
+
+def doRun (a : Json) : Except String Json := do
+  let t ← decodeTables (← J.getObj a "env")
+  let env := mkEnv t t.popFirst
+  let envAlt := mkEnv t (!t.popFirst)
+  let known ← (← J.getArr a "known").toList.mapM decodeKnown
+  let c ← decodeCluster (← J.getObj a "cluster")
+  let k := classes env c
+  let createLocal := createClusterInfo env false c
+  let createRemote := createClusterInfo env true c
+  let limiter := upstreamConditionHandler emptyUpstream c
+  let limiterUpd : M Upstream := match createRemote with
+    | .ok ci => limiterApply quota used c ci.flowcontrol.flowControls
+    | _ => limiterApply quota used c []
+  let reconcile : M Unit := match createRemote with
+    | .ok ci => reconcileTwice c ci
+    | .error e => .error e
+  let update ← match J.optObj a "prev" with
+    | none => pure Json.null
+    | some pj => do
+      let p ← decodeCluster pj
+      let r : M ClusterInfo := do
+        let ci ← createClusterInfo env false p
+        ci.sync env c
+      pure (J.obj [("k", Json.str (kindOf r)), ("what", Json.str (whatOf r)), ("sizes", sizesOf r)])
+  pure <| J.obj [
+    ("core", encodeValidate (validateUpstreamCluster env c)),
+    ("coreAlt", encodeValidate (validateUpstreamCluster envAlt c)),
+    ("validate", encodeValidate (validate env known c)),
+    ("validateAlt", encodeValidate (validate envAlt known c)),
+    ("valid", J.bool (valid env known c)),
+    ("usable", J.bool (usable env c)),
+    ("classes", J.obj [("endpoints", J.bool k.endpoints), ("oneScheme", J.bool k.oneScheme),
+      ("clientTLS", J.bool k.clientTLS), ("serving", J.bool k.serving), ("flowControl", J.bool k.flowControl),
+      ("names", J.bool k.names), ("policyRefs", J.bool k.policyRefs)]),
+    ("createLocal", outcome createLocal),
+    ("createRemote", outcome createRemote),
+    ("sizes", sizesOf createLocal),
+    ("update", update),
+    ("controller", outcome (syncUpstreamCluster env false [] c)),
+    ("limiter", outcome limiter),
+    ("limiterUpdate", outcome limiterUpd),
+    ("globalSizes", match limiter with
+      | .ok u => encodeGlobalSizes u.flowControls
+      | _ => Json.arr #[]),
+    ("reconcile", outcome reconcile)]
 
 /-- `handle method args`: `none` when the method is unknown. -/
-def handle (_m : String) (_a : Json) : Option (Except String Json) := none
+def handle (m : String) (a : Json) : Option (Except String Json) :=
+  match m with
+  | "run" => some (doRun a)
+  | _ => none
 
 end KG.Driver.C16
